@@ -346,8 +346,8 @@ theorem mulState_mat_eq_mul (d : Nat) (A B : LMat α) (hA : WFMat d A) (hB : WFM
       apply List.map_congr_left
       intro j _
       simp only [Function.comp]
-      rw [sumTo_eq_sum, dot_eq_sum, hA.2 _ (List.getElem_mem _), hA.1]
-      apply Finset.sum_congr rfl
+      rw [sumTo_eq_sum, dot_eq_sum, hA.2 _ (List.getElem_mem _)]
+      refine Finset.sum_congr (by rw [hA.1]) ?_
       intro c hc
       have hc' : c < B.length := by rw [hB.1]; exact Finset.mem_range.1 hc
       rw [stateEntry_mat]
